@@ -609,6 +609,58 @@ theorem LinOK.snoc_content {chosen bs names opened} (h : LinOK chosen bs names o
       | none => rfl
       | some id' => simp [Block.dataFor, hother k id' hkn hl]
 
+/-! ### the block protocol: what a block list emitted by the writer looks like, block by block -/
+
+/-- protocol state: the files started so far (name, id) in order, and the open ids with the
+    content seen so far — exactly `files_info` (names) and the opened ids of the writer -/
+structure PSt where
+  names : List (Bytes × Nat)
+  opened : List (Nat × Bytes)
+
+/-- one block: ids are handed out in order, names are fresh, content and eof refer to an open id,
+    the eof carries the hash of the content -/
+def protoStep (H : Bytes → Bytes) (p : PSt) : Block → Option PSt
+  | .start id name =>
+    if id = p.names.length ∧ name ∉ p.names.map (·.1) then
+      some ⟨p.names ++ [(name, id)], p.opened ++ [(id, [])]⟩
+    else none
+  | .content id d =>
+    match alookup id p.opened with
+    | some _ => some ⟨p.names, aupdate id (fun h => h ++ d) p.opened⟩
+    | none => none
+  | .eof id g =>
+    match alookup id p.opened with
+    | some c => if g = H c then some ⟨p.names, aerase id p.opened⟩ else none
+    | none => none
+  | .eoad => none
+
+def protoRun (H : Bytes → Bytes) : PSt → List Block → Option PSt
+  | p, [] => some p
+  | p, b :: bs =>
+    match protoStep H p b with
+    | some p' => protoRun H p' bs
+    | none => none
+
+theorem protoRun_append (H : Bytes → Bytes) (p : PSt) (a b : List Block) :
+    protoRun H p (a ++ b) =
+      match protoRun H p a with
+      | some p' => protoRun H p' b
+      | none => none := by
+  induction a generalizing p with
+  | nil => rfl
+  | cons x xs ih =>
+    simp only [List.cons_append, protoRun]
+    cases protoStep H p x with
+    | none => rfl
+    | some p' => exact ih p'
+
+theorem protoRun_snoc (H : Bytes → Bytes) (p p' : PSt) (a : List Block) (b : Block)
+    (h : protoRun H p a = some p') :
+    protoRun H p (a ++ [b]) = protoStep H p' b := by
+  rw [protoRun_append, h]
+  simp only [protoRun]
+  cases protoStep H p' b <;> rfl
+
 /-! ### the invariant -/
 
 structure Inv (P : Params) (H : Bytes → Bytes) (utf8 : Bytes → Bool) (s : WState)
@@ -627,11 +679,12 @@ structure Inv (P : Params) (H : Bytes → Bytes) (utf8 : Bytes → Bool) (s : WS
   files : ∀ n id, (n, id) ∈ s.names →
     ∃ fi, alookup id s.info = some fi ∧ FileOK H bs s.opened n id fi
   lin : ∀ chosen, LinOK chosen bs s.names s.opened
+  proto : protoRun H ⟨[], []⟩ bs = some ⟨s.names, s.opened⟩
 
 theorem Inv.init (P : Params) (H : Bytes → Bytes) (utf8 : Bytes → Bool) :
     Inv P H utf8 WState.init [] {} := by
   refine ⟨rfl, rfl, Or.inl rfl, by simp, rfl, by simp [WState.init], rfl, by simp [WState.init],
-    by simp [WState.init], rfl, rfl, by simp [WState.init], fun c => LinOK.init c⟩
+    by simp [WState.init], rfl, rfl, by simp [WState.init], fun c => LinOK.init c, rfl⟩
 
 section
 variable {P : Params} {H : Bytes → Bytes} {utf8 : Bytes → Bool}
@@ -709,7 +762,8 @@ theorem stepStart_inv (hinv : Inv P H utf8 s bs sp) (name : Bytes) (hutf : utf8 
           spn := ?_
           spf := ?_
           files := ?_
-          lin := ?_ }
+          lin := ?_
+          proto := ?_ }
       · simp [hinv.pos]
       · intro b hb
         rcases List.mem_append.1 hb with hb | hb
@@ -767,6 +821,11 @@ theorem stepStart_inv (hinv : Inv P H utf8 s bs sp) (name : Bytes) (hutf : utf8 
           cases alookup k s.opened with
           | some v => rfl
           | none => simp; omega
+      · rw [protoRun_snoc H _ _ _ _ hinv.proto]
+        have hl : s.nextId = s.names.length := by
+          have := congrArg List.length hinv.ids
+          simpa using this.symm
+        simp [protoStep, hl, nameLookup_eq_none _ _ hnl]
 
 /-! ### `mark_continuous_block` -/
 
@@ -852,7 +911,8 @@ theorem stepAppend_inv (hinv : Inv P H utf8 s bs sp) (id size : Nat) (src : Byte
           spn := ?_
           spf := ?_
           files := ?_
-          lin := ?_ }
+          lin := ?_
+          proto := ?_ }
       · show sm.finalized = false
         rw [m1]; exact hinv.fin
       · show sm.pos + _ = _
@@ -910,6 +970,9 @@ theorem stepAppend_inv (hinv : Inv P H utf8 s bs sp) (id size : Nat) (src : Byte
         exact (hinv.lin chosen).snoc_content id d n hn hinv.nodup
           (by rw [hinv.ids]; exact List.nodup_range) (by rw [ho]; rfl) _
           (fun k => by rw [alookup_aupdate]; split <;> simp)
+      · show protoRun H _ _ = some ⟨sm.names, aupdate id _ sm.opened⟩
+        rw [protoRun_snoc H _ _ _ _ hinv.proto, m5, m6]
+        simp [protoStep, ho]
 
 /-! ### `end_file` -/
 
@@ -944,7 +1007,8 @@ theorem stepEnd_inv (hH : ∀ b, (H b).length = hashLen) (hinv : Inv P H utf8 s 
         spn := ?_
         spf := ?_
         files := ?_
-        lin := ?_ }
+        lin := ?_
+        proto := ?_ }
     · show sm.finalized = false
       rw [m1]; exact hinv.fin
     · show sm.pos + _ = _
@@ -998,6 +1062,9 @@ theorem stepEnd_inv (hH : ∀ b, (H b).length = hashLen) (hinv : Inv P H utf8 s 
       obtain ⟨n, hn⟩ := hinv.name_of_lt hidlt
       exact (hinv.lin chosen).snoc_eof id _ (List.mem_map.2 ⟨(n, id), hn, rfl⟩) _
         (alookup_aerase_self _ _ hinv.okeys) (fun k hk => alookup_aerase_ne _ _ _ hk)
+    · show protoRun H _ _ = some ⟨sm.names, sm.opened⟩
+      rw [protoRun_snoc H _ _ _ _ hinv.proto, m5, m6]
+      simp [protoStep, ho]
 
 /-! ### `add_file` -/
 
